@@ -316,6 +316,7 @@ func (x *Exec) loopHeader(st *State, fr *Frame, b *ssa.BasicBlock, prev *ssa.Bas
 		}
 	}
 	st.logMark = len(st.log)
+	st.cutMark = cellCtr
 	evalInvs(st, fr, "assume", true)
 	if nphi == 0 {
 		fr.skipHeader = b
